@@ -1,5 +1,10 @@
 (* Glue for C08: decodes the harness's case, runs Model/Send.v, renders the
-   observation.  Three case kinds:
+   observation.  Payloads are abstract tokens chosen by the harness (the
+   canonical reading of a stanza as XML elements for Send/SendIQ, the exact
+   bytes for SendRaw): the property fixes WHICH element goes on the wire, whole
+   and once, not its spelling.  Only what the property speaks about is rendered:
+   error or no error, the transport writes, the queue payloads; the log file's
+   own write pattern and the error values are projected away.  Three case kinds:
    0  op history on a client/component over a recording transport
    1  Write calls straight on the stream logger
    2  concurrent senders: the LTS run under the schedule read off the wire
@@ -10,16 +15,9 @@ From XV Require Import Lib.Sx Model.Queue Model.Send.
 Import ListNotations.
 Open Scope Z_scope.
 
-Definition werr_z (e : werr) : Z :=
-  match e with ESock => 0 | ELog => 1 | EShort => 2 | ENoRW => 3 end.
+(* error or no error *)
 Definition result_sx (r : result) : sx :=
-  match r with
-  | RNil => SL [SZ 0]
-  | RErr e => SL [SZ 1; SZ (werr_z e)]
-  | RWrapped e => SL [SZ 2; SZ (werr_z e)]
-  | RReject => SL [SZ 3]
-  | RNotConn => SL [SZ 4]
-  end.
+  match r with RNil => SZ 0 | _ => SZ 1 end.
 
 (* faults: list of (call number, kind 1 = error / 2 = short, bytes taken) *)
 Definition dec_fault (x : sx) : option (nat * wres) :=
@@ -76,7 +74,6 @@ Definition dec_input (x : sx) : option cinput :=
   end.
 
 Definition strs_sx (l : list str) : sx := SL (map SS l).
-Definition entry_sx (e : Z * str) : sx := SL [SZ (fst e); SS (snd e)].
 
 Fixpoint logger_run (so lo : oracle) (st : state) (ps : list str) : list (option werr) * state :=
   match ps with
@@ -92,16 +89,14 @@ Definition run_typed (i : cinput) : sx :=
       let so := mk_oracle sf in
       let lo := mk_oracle lf in
       let '(obs, st) := run_obs cfg so lo st0 ops in
-      SL [SL (map (fun o => match o with (r, sc, lc) => SL [result_sx r; strs_sx sc; strs_sx lc] end) obs);
-          SL (map entry_sx (q_items (s_queue st)));
-          SS (stream so 0 (s_sock st))]
+      SL [SL (map (fun o => match o with (r, sc, _) => SL [result_sx r; strs_sx sc] end) obs);
+          strs_sx (map snd (q_items (s_queue st)))]
   | ILogger sf lf ps =>
       let so := mk_oracle sf in
       let lo := mk_oracle lf in
       let '(es, st) := logger_run so lo st0 ps in
-      SL [SL (map (fun e => match e with None => SL [] | Some e' => SL [SZ (werr_z e')] end) es);
-          strs_sx (s_sock st); strs_sx (s_log st);
-          SS (stream so 0 (s_sock st)); SS (stream lo 0 (s_log st))]
+      SL [SL (map (fun e => match e with None => SZ 0 | Some _ => SZ 1 end) es);
+          strs_sx (s_sock st); SS (stream so 0 (s_sock st))]
   | IConc senders sched =>
       let '(w, rest, ok) := run_sched senders sched in
       SL [strs_sx w; SB ok; SB (all_doneb rest)]
